@@ -187,6 +187,58 @@ func restCase(code int) *fail {
 	return nil
 }
 
+// restPanicCase: the handler writes a 5xx status and then panics (what httputil.ReverseProxy does
+// with http.ErrAbortHandler) with no recover middleware between it and the breaker. The panic must
+// be re-raised, and the admitted request must still be accounted — as a failure, since a 5xx was
+// written: six of them, then a 7th request under the drop answer is refused. (A panic before any
+// status is written is not pinned either way: the REST predicate is the status code.)
+func restPanicCase(code int) *fail {
+	vsched.SetNow(0)
+	if restMetrics == nil {
+		restMetrics = stat.NewMetrics("c01")
+	}
+	calls := 0
+	boom := true
+	next := http.HandlerFunc(func(w http.ResponseWriter, r *http.Request) {
+		calls++
+		w.WriteHeader(code)
+		if boom {
+			panic(http.ErrAbortHandler)
+		}
+	})
+	h := handler.BreakerHandler(http.MethodGet, fmt.Sprintf("/c01/panic/%d", code), restMetrics)(next)
+	do := func() (status int, called, panicked bool) {
+		before := calls
+		hook.mode = ansDrop
+		rec := httptest.NewRecorder()
+		func() {
+			defer func() {
+				if p := recover(); p != nil {
+					panicked = true
+				}
+			}()
+			h.ServeHTTP(rec, httptest.NewRequest(http.MethodGet, "/c01", nil))
+		}()
+		hook.mode = ansPass
+		return rec.Code, calls > before, panicked
+	}
+	for i := 1; i <= 6; i++ {
+		st, called, panicked := do()
+		if !called {
+			return &fail{"rest-5xx-rejected-early", fmt.Sprintf("BreakerHandler: request %d (answers %d, then panics) was refused with %d although only %d failures were recorded before it", i, code, st, i-1)}
+		}
+		if !panicked {
+			return &fail{"rest-panic-swallowed", fmt.Sprintf("BreakerHandler: the handler's panic of request %d was not re-raised", i)}
+		}
+	}
+	boom = false
+	st, called, _ := do()
+	if called || st != http.StatusServiceUnavailable {
+		return &fail{"rest-panic-after-5xx-not-counted-as-failure", fmt.Sprintf("BreakerHandler: after six requests that answered %d and then panicked, the 7th request (coin = drop) was passed through (called=%v status=%d): the panicking requests were not recorded as failures", code, called, st)}
+	}
+	return nil
+}
+
 // ---------- gRPC ----------
 
 var grpcFailureCodes = map[gcodes.Code]bool{
@@ -565,6 +617,8 @@ func runWrapCase(c WrapCase) *fail {
 	switch c.Kind {
 	case "rest":
 		return restCase(c.Code)
+	case "rest-panic":
+		return restPanicCase(c.Code)
 	case "zrpc-client", "zrpc-unary", "zrpc-stream":
 		return grpcCase(c.Kind, c.Err, c.Code)
 	case "redis":
@@ -580,6 +634,9 @@ func wrapCases() []WrapCase {
 	cs = append(cs, WrapCase{Kind: "rest", Code: 0})
 	for code := 200; code <= 599; code++ {
 		cs = append(cs, WrapCase{Kind: "rest", Code: code})
+	}
+	for _, code := range []int{500, 502, 503, 504, 599} {
+		cs = append(cs, WrapCase{Kind: "rest-panic", Code: code})
 	}
 	for _, kind := range []string{"zrpc-client", "zrpc-unary", "zrpc-stream"} {
 		for _, ne := range grpcErrors(kind != "zrpc-client") {
